@@ -9,6 +9,7 @@ package c20
 
 import (
 	"fmt"
+	"os"
 	"strings"
 	"sync"
 	"testing"
@@ -152,14 +153,23 @@ func seqString(seq []int) string {
 func TestC20(t *testing.T) {
 	r := run.New(t, "C20", "exploration")
 	defer r.Finish()
-	r.Rule("all event sequences over {request, success, failure} of the stated depth for every (N, MinSuccesses), each replayed on a fresh real BlackHoleSuccessCounter in lock-step with a reference model; a sequence is non-trivial if the reference visits the Blocked state; FilterAddrs: all subsets of 8 representative addresses x counter situations x read-only; distinct = distinct (config, sequence)")
-	r.Assume("swarm-level use of the detector (dialPeer/filterKnownUndialables) is covered by the C05 rig, not here",
-		"window sizes above the enumerated N are covered only by the state-graph walk")
+	r.Rule("all event sequences over {request, success, failure} of the stated depth for every (N, MinSuccesses), each replayed on a fresh real BlackHoleSuccessCounter in lock-step with a reference model; a sequence is non-trivial if the reference visits the Blocked state; FilterAddrs: all subsets of 8 representative addresses x counter situations x read-only; distinct = distinct (config, sequence); swarm-level part: generated histories of DialPeer calls to fresh peers on a REAL swarm over scripted transports (virtual time), judged step by step by a nondeterministic reference fed with the transport dial log; such a history is non-trivial if the real swarm withheld a public address at least once")
+	r.Assume("window sizes above the enumerated N are covered only by the state-graph walk",
+		"swarm-level part: every address that passes the swarm's filtering is handed to its scripted transport before the DialPeer ends (fresh peers, scripted successes slower than all dial-ranking delays); virtual end times order the recorded dial results")
 
+	if os.Getenv("VERIF_RACE") == "1" || os.Getenv("C20_PART") == "swarm" {
+		// race pass: only the workloads with concurrency (real swarm, concurrent DialPeers, shared counters).
+		// C20_PART=swarm (diagnosis, mutation trials): the swarm-level part alone, full size.
+		swarmPart(r)
+		swarmRequire(r)
+		return
+	}
 	enumerate(r)
 	stateWalk(r)
 	filterAddrs(r)
 	readOnlyTwins(r)
+	swarmPart(r)
+	swarmRequire(r)
 	r.Require("sequences_reaching_blocked", 100)
 	r.Require("blocked_requests_probed", 100)
 	r.Require("blocked_success_resets", 100)
